@@ -183,3 +183,182 @@ def has_container_in_tuple(v):
     if isinstance(v, dict):
         return any(has_container_in_tuple(x) for x in v.values())
     return False
+
+
+# ---- C01: the hypotheses of the round-trip theorem, observed on the implementation ----
+# Python mirrors of the Coq booleans of Delta/DeltaChain.v + Delta/DeltaHyp.v: the model value is
+# compared with the mirror (agreement), and the mirror is what gets counted / asserted.
+
+HYP_HDR = HDR[:-1] + " Delta.DeltaChain Delta.DeltaHyp."
+
+
+def _is_atom(v):
+    return not isinstance(v, (list, tuple, dict, set, frozenset))
+
+
+def _atoms_of(v, acc):
+    if isinstance(v, (list, tuple)):
+        for x in v:
+            _atoms_of(x, acc)
+    elif isinstance(v, dict):
+        for k, x in v.items():
+            acc.append(k)
+            _atoms_of(x, acc)
+    elif isinstance(v, (set, frozenset)):
+        acc.extend(v)
+    else:
+        acc.append(v)
+
+
+def _py_eq(a, b):
+    """Value.py_eq: numbers (bool/int/float) compare numerically, str with str, bytes with bytes, None with None"""
+    num = (bool, int, float)
+    if isinstance(a, num) and isinstance(b, num):
+        return a == b
+    if type(a) is type(b) and isinstance(a, (str, bytes, type(None))):
+        return a == b
+    return False
+
+
+def alias_free_py(t1, t2):
+    atoms = []
+    _atoms_of(t1, atoms)
+    _atoms_of(t2, atoms)
+    for i, a in enumerate(atoms):
+        for b in atoms[i + 1:]:
+            if _py_eq(a, b) and type(a) is not type(b):
+                return False
+    return True
+
+
+def okpb_py(t1, t2, bidir, always):
+    if isinstance(t1, list) and isinstance(t2, list):
+        return all(okpb_py(x, y, bidir, always) for x, y in zip(t1, t2))
+    if isinstance(t1, tuple) and isinstance(t2, tuple):
+        return all(_is_atom(x) for x in t1) and all(_is_atom(y) for y in t2) and len(t1) == len(t2)
+    if isinstance(t1, dict) and isinstance(t2, dict):
+        return all(okpb_py(v1, t2[k], bidir, always) for k, v1 in t1.items() if k in t2)
+    return type(t1) is type(t2) or bidir or always or (_is_atom(t1) and _is_atom(t2))
+
+
+def nopriv_py(v):
+    if isinstance(v, (list, tuple)):
+        return all(nopriv_py(x) for x in v)
+    if isinstance(v, dict):
+        return all(not (isinstance(k, str) and k.startswith("__")) and nopriv_py(x) for k, x in v.items())
+    return True
+
+
+def guardsb_py(t1, t2, bidir, always, ignore_private=True):
+    """mirror of DeltaChain.guardsb (wf holds of every Python value)"""
+    return (alias_free_py(t1, t2) and okpb_py(t1, t2, bidir, always)
+            and ((not ignore_private) or (nopriv_py(t1) and nopriv_py(t2))))
+
+
+def guards_reasons(t1, t2, bidir, always, ignore_private=True):
+    out = []
+    if not alias_free_py(t1, t2):
+        out.append("alias")
+    if not okpb_py(t1, t2, bidir, always):
+        out.append("tuple_or_type_change")
+    if ignore_private and not (nopriv_py(t1) and nopriv_py(t2)):
+        out.append("private_key")
+    return out
+
+
+def valid_ops_py(xs, ys, ops):
+    """mirror of DeltaChain.valid_opsb on difflib opcodes (tag, i1, i2, j1, j2)"""
+    i = j = 0
+    for (tag, i1, i2, j1, j2) in ops:
+        if i1 != i or j1 != j or i1 > i2 or j1 > j2:
+            return False
+        if tag == "equal":
+            a, b = list(xs[i1:i2]), list(ys[j1:j2])
+            if (i2 - i1) != (j2 - j1) or len(a) != len(b):
+                return False
+            if not all(_is_atom(x) and _is_atom(y) and _py_eq(x, y) for x, y in zip(a, b)):
+                return False
+        elif tag == "replace":
+            if not (i1 < i2 and j1 < j2):
+                return False
+        elif tag == "delete":
+            if not (i1 < i2 and j1 == j2):
+                return False
+        elif tag == "insert":
+            if not (i1 == i2 and j1 < j2):
+                return False
+        else:
+            return False
+        i, j = i2, j2
+    return i == len(xs) and j == len(ys)
+
+
+def _at(v, cpath):
+    for tag, x in cpath:
+        v = v[x] if tag == "x" else v[D.uncanon_atom(x)]
+    return v
+
+
+def ops_table_ok_py(t1, t2, table):
+    return all(valid_ops_py(_at(t1, p), _at(t2, p), ops) for p, ops in table)
+
+
+def idx_lt_c(p1, p2):
+    """mirror of DeltaChain.idx_ltb on canonical parsed paths: first divergence at two int keys, p1's smaller"""
+    for (a, b) in zip(p1, p2):
+        if a == b:
+            continue
+        ka, kb = a[1], b[1]
+        if isinstance(ka, list) and isinstance(kb, list) and ka[0] == "i" and kb[0] == "i":
+            return ka[1] < kb[1]
+        return False
+    return False
+
+
+def desc_ok(paths):
+    return all(not idx_lt_c(paths[i], paths[j]) for i in range(len(paths)) for j in range(i + 1, len(paths)))
+
+
+def asc_ok(paths):
+    return all(not idx_lt_c(paths[j], paths[i]) for i in range(len(paths)) for j in range(i + 1, len(paths)))
+
+
+def impl_orders_split(delta):
+    """visiting orders of the three sorted passes restricted to the payload categories the model sorts
+    (iterable_item_removed, dictionary_item_removed, iterable_item_added), and whether the
+    mixed-type fallback comparator was used"""
+    from deepdiff import Delta
+    fallback = [False]
+
+    def order(items, reverse):
+        try:
+            s = sorted(items.items(), key=Delta._sort_key_for_item_added, reverse=reverse)
+        except TypeError:
+            fallback[0] = True
+            s = sorted(items.items(), key=cmp_to_key(Delta._sort_comparison), reverse=reverse)
+        return [p for p, _ in s]
+    diff = delta.diff
+    irem = dict(diff.get("iterable_item_removed", {}))
+    irem.update({k: v["value"] for k, v in diff.get("iterable_item_moved", {}).items()})
+    iadd = dict(diff.get("iterable_item_added", {}))
+    iadd.update({v["new_path"]: None for v in diff.get("iterable_item_moved", {}).values()})
+    drem = dict(diff.get("dictionary_item_removed", {}))
+    r6 = [parse_pathc(p) for p in order(irem, True) if p in diff.get("iterable_item_removed", {})]
+    r9 = [parse_pathc(p) for p in order(drem, True)]
+    a7 = [parse_pathc(p) for p in order(iadd, False) if p in diff.get("iterable_item_added", {})]
+    return r6, r9, a7, fallback[0]
+
+
+def hyp_expr(t1, t2, zip_, thr, bidir, always, conv_tbl, rem, add, ignore_private=True):
+    """Coq expression (sx) of the three observed hypotheses: guardsb, valid_opsb on every difflib
+    opcode list, descending / ascending visiting orders (+ permutation on the paths)"""
+    ops = D.coq_ops_table(D.opcode_table(t1, t2))
+    return ("(let r := run_diff hatom_simple (tbl_udiff %s) (tbl_ops %s) no_paths no_paths %s %s %s in "
+            "let cv := tbl_conv %s in "
+            "let d := to_delta cv %s %s (tbl_ops %s) %s %s (fst r) (snd r) in "
+            "sx_hyp (guardsb %s %s %s %s %s) (ops_table_okb %s %s %s) "
+            "(orders_okb (order_by %s fst) (order_by %s fst) d))") % (
+        D.coq_udiff_table(D.udiff_table(t1, t2)), ops, D.coq_cfg(zip_, thr, ignore_private), V.to_coq(t1), V.to_coq(t2),
+        conv_tbl, "true" if bidir else "false", "true" if always else "false", ops, V.to_coq(t1), V.to_coq(t2),
+        D.coq_cfg(zip_, thr, ignore_private), "true" if bidir else "false", "true" if always else "false",
+        V.to_coq(t1), V.to_coq(t2), V.to_coq(t1), V.to_coq(t2), ops, coq_paths(rem), coq_paths(add))
